@@ -19,29 +19,20 @@ Theorem C11_formulas : forall i, IDS i =
   (let e := if bytes_eqb (i_nonce (in_iss i)) zero32 then cmp (H (enc c_outpoint (in_prev i))) (i_entropy (in_iss i)) else i_entropy (in_iss i) in
    (cmp e zero32, cmp e (if value_is_confidential (i_amount (in_iss i)) then two32 else one32))).
 Proof. reflexivity. Qed.
-(* second view: the PSET input built from the input.  Outside the known class (a zero blinding nonce on an input whose
-   serialized index carries a pegin or issuance flag bit) the ids agree *)
-Theorem C11_three_views_pset : forall i, txin_wfB i = true -> known_F10 i = false -> PIDS (psetin_from_txin i) = IDS i.
+(* second view: the PSET input built from the input (its stored index carries the flag bits, which issuance_ids strips; repaired by c21fbfc) *)
+Theorem C11_three_views_pset : forall i, txin_wfB i = true -> PIDS (psetin_from_txin i) = IDS i.
 Proof. exact (three_views_pset H cmp). Qed.
-(* inside the class (finding F10) the PSET view hashes the index WITH the flag bits, a different outpoint serialization *)
-Theorem C11_three_views_refuted : forall i, txin_wfB i = true -> known_F10 i = true -> o_vout (in_prev i) < bit30 ->
-  PIDS (psetin_from_txin i) =
-    (let e := cmp (H (enc c_outpoint {| o_txid := o_txid (in_prev i); o_vout := wire_vout i |})) (i_entropy (in_iss i)) in
-     (cmp e zero32, cmp e (if value_is_confidential (i_amount (in_iss i)) then two32 else one32)))
-  /\ enc c_outpoint {| o_txid := o_txid (in_prev i); o_vout := wire_vout i |} <> enc c_outpoint (in_prev i).
-Proof. intros i W K Hv. split; [|now apply F10_preimage_differs].
-  rewrite (pset_view_ids H cmp i W). unfold known_F10 in K. apply andb_true_iff in K as [K _]. rewrite K. reflexivity. Qed.
 (* third view: the input of the transaction extracted from that PSET *)
 Theorem C11_three_views_extract : forall i, txin_wfB i = true -> IDS (psetin_extract (psetin_from_txin i)) = IDS i.
 Proof. exact (three_views_extract H cmp). Qed.
 End C11.
 
-(* non-vacuity: a canonical new issuance on a pegin input is in the class; a reissuance is not *)
+(* non-vacuity: a canonical new issuance and a canonical reissuance on a pegin input *)
 Definition new_iss_in : txin := {| in_prev := {| o_txid := repeat x11 32; o_vout := 7 |}; in_pegin := false; in_script := []; in_seq := 5;
   in_iss := {| i_nonce := zero32; i_entropy := repeat x22 32; i_amount := VExplicit 1000; i_keys := VNull |}; in_wit := empty_inwit |}.
 Definition reiss_in : txin := {| in_prev := {| o_txid := repeat x11 32; o_vout := 7 |}; in_pegin := true; in_script := []; in_seq := 5;
   in_iss := {| i_nonce := repeat x09 32; i_entropy := repeat x22 32; i_amount := VConf (x08 :: repeat x01 32); i_keys := VNull |}; in_wit := empty_inwit |}.
-Example C11_class_examples : txin_wfB new_iss_in = true /\ known_F10 new_iss_in = true /\ txin_wfB reiss_in = true /\ known_F10 reiss_in = false.
+Example C11_canonical_examples : txin_wfB new_iss_in = true /\ txin_wfB reiss_in = true /\ has_issuance new_iss_in = true /\ in_pegin reiss_in = true.
 Proof. vm_compute. repeat split; reflexivity. Qed.
-Check (C11_three_views_pset : forall H cmp i, txin_wfB i = true -> known_F10 i = false ->
+Check (C11_three_views_pset : forall H cmp i, txin_wfB i = true ->
   psetin_issuance_ids H cmp (psetin_from_txin i) = txin_issuance_ids H cmp i).
